@@ -183,6 +183,9 @@ func AdvanceOps(w *world.World, ctx sdk.Context, mid bool, maxHeight int64) []en
 	h := ctx.BlockHeight()
 	targets := []int64{h}
 	for _, n := range Interesting(w, ctx) {
+		if n == h {
+			break // the end-blocker of the block in progress has work to do: it cannot be jumped over
+		}
 		if n > h {
 			if mid && n-h >= 4 {
 				targets = append(targets, h+(n-h)/2)
